@@ -338,34 +338,50 @@ theorem gen_uniform_iff (U : Uniform) (xof : Xof) (s : St) (n : Nat) (moduli des
       ∃ c s', uniformPoly U xof s n moduli = .ok (c, s') ∧ g' = ofSt s' ∧ d' = flatCM moduli.length n c :=
   gs_uniform_iff U xof s n moduli dest hd hB g' d'
 
-/-- `Ciphertext::expand_seed` (skeleton over the flat buffer `data` = c0 ++ c1; `n` = degree, `k` = number of moduli of the ciphertext;
-    `seedBytes` = little-endian bytes of the 8 words after the flag word `data[n·k]`): on a flagged size-2 ciphertext whose polynomials
-    have AT LEAST 9 WORDS, c0 is kept and c1 becomes `sample::uniform` drawn from `BlakeRNG::from_seed(seedBytes)` -/
+/-- `Ciphertext::contains_seed` (skeleton over the flat buffer `data` = c0 ++ c1; `n` = degree, `k` = number of moduli of the ciphertext):
+    `size == 2 && c1[0] == CIPHERTEXT_SEED_FLAG` -/
+theorem gen_contains_seed_eq (data : List Nat) (n k : Nat) (hn : 0 < n) (hk : 0 < k) (hlen : data.length = 2 * (n * k)) (hB : 2 * (n * k) < B64) :
+    GenRng.contains_seed data 2 n k = .ok (decide (data.getD (n * k) 0 = gs_FLAG)) ∧
+    (∀ size, size ≠ 2 → GenRng.contains_seed data size n k = .ok false) :=
+  ⟨gs_contains_seed_eq data n k hn hk hlen hB, fun size hs => gs_contains_seed_size data size n k hs⟩
+
+example : gs_FLAG = Gen.CIPHERTEXT_SEED_FLAG := rfl
+
+/-- `Ciphertext::expand_seed` (skeleton; `seedBytes` = little-endian bytes of the 8 words after the flag word `data[n·k]`): on a flagged
+    size-2 ciphertext whose polynomials have AT LEAST 9 WORDS, c0 is kept and c1 becomes `sample::uniform` drawn from
+    `BlakeRNG::from_seed(seedBytes)` -/
 theorem gen_expand_seed_eq (U : Uniform) (xof : Xof) (data moduli : List Nat) (n k : Nat) (hk : moduli.length = k)
-    (hlen : data.length = 2 * (n * k)) (h9 : 9 ≤ n * k) (hB : 2 * (n * k) < B64) (c : List (List Nat)) (s' : St)
-    (h : uniformPoly U xof (fromSeed (gs_seedBytes data (n * k))) n moduli = .ok (c, s')) :
-    GenRng.expand_seed (blakeOps U xof) data 2 n k true moduli n = .ok (data.take (n * k) ++ flatCM k n c) :=
-  gs_expand_seed_eq U xof data moduli n k hk hlen h9 hB c s' h
+    (hlen : data.length = 2 * (n * k)) (hflag : data.getD (n * k) 0 = gs_FLAG) (h9 : 9 ≤ n * k) (hB : 2 * (n * k) < B64)
+    (c : List (List Nat)) (s' : St) (h : uniformPoly U xof (fromSeed (gs_seedBytes data (n * k))) n moduli = .ok (c, s')) :
+    GenRng.expand_seed (blakeOps U xof) data 2 n k moduli n = .ok (data.take (n * k) ++ flatCM k n c) :=
+  gs_expand_seed_eq U xof data moduli n k hk hlen hflag h9 hB c s' h
 
 /-- the hypothesis `9 ≤ n·k` of the previous theorem is NOT a technicality: below it (N = 4 or 8 with one prime, N = 4 with two, N = 2 with
     up to four) the raw-pointer read of the seed LEAVES THE BUFFER - `.error .oob` is the translation's rendering of undefined behaviour.
     (`symmetric_with_c1_prng` never stores a seed there, but `expand_seed` / `deserialize_full` do not check.  Observed on the real code,
     notes/work7-R.md: one byte string deserializes to different ciphertexts.) -/
 theorem gen_expand_seed_oob (B : RngOps BlakeRNG) (data qs : List Nat) (pn n k : Nat) (hn : 0 < n) (hk : 0 < k)
-    (hlen : data.length = 2 * (n * k)) (h9 : n * k < 9) :
-    GenRng.expand_seed B data 2 n k true qs pn = .error .oob := gs_expand_seed_oob B data qs pn n k hn hk hlen h9
+    (hlen : data.length = 2 * (n * k)) (hflag : data.getD (n * k) 0 = gs_FLAG) (h9 : n * k < 9) :
+    GenRng.expand_seed B data 2 n k qs pn = .error .oob := gs_expand_seed_oob B data qs pn n k hn hk hlen hflag h9
 
-example : (0 : Nat) < 4 ∧ (0 : Nat) < 1 ∧ ([11, 12, 13, 14, 18446744073709551615, 1, 2, 3] : List Nat).length = 2 * (4 * 1) ∧ 4 * 1 < 9 := by decide
+example : (0 : Nat) < 4 ∧ (0 : Nat) < 1 ∧ ([11, 12, 13, 14, 18446744073709551615, 1, 2, 3] : List Nat).length = 2 * (4 * 1) ∧
+    ([11, 12, 13, 14, 18446744073709551615, 1, 2, 3] : List Nat).getD (4 * 1) 0 = gs_FLAG ∧ 4 * 1 < 9 := by decide
+
+/-- a size-2 ciphertext that is not flagged is refused -/
+theorem gen_expand_seed_refuses (B : RngOps BlakeRNG) (data qs : List Nat) (pn n k : Nat) (hn : 0 < n) (hk : 0 < k)
+    (hlen : data.length = 2 * (n * k)) (hB : 2 * (n * k) < B64) (hflag : data.getD (n * k) 0 ≠ gs_FLAG) :
+    GenRng.expand_seed B data 2 n k qs pn = .error .refused := gs_expand_seed_refuses B data qs pn n k hn hk hlen hB hflag
 
 /-- tie to `Model/Encrypt.lean`: what `expandSeed` returns for the seeded ciphertext `(c0, seedBytes)` at level `l` is what the generated
     function writes over polynomial 1 -/
 theorem gen_expand_seed_model (U : Uniform) (xof : Xof) (l : Level) (data : List Nat) (c0 : RnsPoly) (ntt : Bool) (cf : Nat)
-    (hlen : data.length = 2 * (l.n * l.qs.size)) (h9 : 9 ≤ l.n * l.qs.size) (hB : 2 * (l.n * l.qs.size) < B64) (ct : Ct)
+    (hlen : data.length = 2 * (l.n * l.qs.size)) (hflag : data.getD (l.n * l.qs.size) 0 = gs_FLAG) (h9 : 9 ≤ l.n * l.qs.size)
+    (hB : 2 * (l.n * l.qs.size) < B64) (ct : Ct)
     (h : expandSeed U xof l ⟨c0, gs_seedBytes data (l.n * l.qs.size), ntt, cf⟩ = .ok ct) :
     ∃ c : List (List Nat), ct.polys = #[c0, toRns c] ∧
-      GenRng.expand_seed (blakeOps U xof) data 2 l.n l.qs.size true (l.qs.toList.map (·.value)) l.n =
+      GenRng.expand_seed (blakeOps U xof) data 2 l.n l.qs.size (l.qs.toList.map (·.value)) l.n =
         .ok (data.take (l.n * l.qs.size) ++ flatCM l.qs.size l.n c) :=
-  gs_expand_seed_model U xof l data c0 ntt cf hlen h9 hB ct h
+  gs_expand_seed_model U xof l data c0 ntt cf hlen hflag h9 hB ct h
 
 end generated
 
